@@ -472,3 +472,12 @@ def r03_9(ctx):
 
     callback_operand_kind_independence(ctx)
     statement_operand_kind_independence(ctx)
+
+
+@rule("R03.10", "C03", "the types conversions start from and end in are the declared ones: C type names denote sign and width by their spelling; nodes that yield a truth value are typed as one", min_instances=20)
+def r03_10(ctx):
+    from .c08 import c_type_table
+    from .c10 import bool_node_classes_declare_bool
+
+    c_type_table(ctx)
+    bool_node_classes_declare_bool(ctx)
